@@ -106,3 +106,5 @@ def handle (j : Json) : Json :=
   | k => Json.mkObj [("id", Json.str (jstr sc "id")), ("error", Json.str s!"unknown kind {k}")]
 
 end Driver.Path
+
+def main : IO UInt32 := Driver.runMain Driver.Path.handle
